@@ -77,6 +77,10 @@ func funcArrayShuttle(ctx *Context, this *VMValue, params []*VMValue) *VMValue {
 
 func funcArrayRand(ctx *Context, this *VMValue, params []*VMValue) *VMValue {
 	arr, _ := this.ReadArray()
+	if len(arr.List) == 0 {
+		ctx.Error = errors.New("(arr.rand)数组为空")
+		return nil
+	}
 	return arr.List[ctxRand(ctx).Intn(len(arr.List))]
 }
 
@@ -87,6 +91,10 @@ func funcArrayRandSize(ctx *Context, this *VMValue, params []*VMValue) *VMValue 
 	arr, _ = newArr.ReadArray()
 
 	if val, ok := params[0].ReadInt(); ok {
+		if val < 0 || int(val) > len(arr.List) {
+			ctx.Error = errors.New("(arr.randSize)个数超出范围")
+			return nil
+		}
 		arr.List = arr.List[:val]
 		return newArr
 	} else {
